@@ -1,6 +1,8 @@
 import GfsModel.OpsSeq
 import GfsModel.OpsHist
 import GfsModel.OpsList
+import GfsModel.OpsFuzz
+import GfsModel.OpsDisk
 
 namespace Gfs.Ops
 open Gfs.Proto
@@ -17,6 +19,12 @@ def dispatch (f : List String) : Obs × Option Obs :=
       | none =>
         match dispatchList f with
         | some r => r
-        | none => ([("bad-op", "1")], none)
+        | none =>
+          match dispatchFuzz f with
+          | some r => r
+          | none =>
+            match dispatchDisk f with
+            | some r => r
+            | none => ([("bad-op", "1")], none)
 
 end Gfs.Ops
